@@ -67,10 +67,32 @@ func (o *Optimizer) checkFunctionCalls(stmt Statement) error {
 	case *RemoveStmt:
 		exprs = append(exprs, vstmt.Keys...)
 	}
-	if err := o.checkFunctionCallsIn(fields, true); err != nil {
-		return err
+	for _, field := range fields {
+		if err := o.checkFieldFunctionCalls(field); err != nil {
+			return err
+		}
 	}
 	return o.checkFunctionCallsIn(exprs, false)
+}
+
+// checkFieldFunctionCalls checks a select field. The aggregate plan looks for
+// aggregate calls in the field itself and through its binary operators, an
+// aggregate call anywhere else (in the arguments of another call, under !)
+// would be evaluated as a scalar call
+func (o *Optimizer) checkFieldFunctionCalls(field Expression) error {
+	switch e := field.(type) {
+	case *BinaryOpExpr:
+		if err := o.checkFieldFunctionCalls(e.Left); err != nil {
+			return err
+		}
+		return o.checkFieldFunctionCalls(e.Right)
+	case *FunctionCallExpr:
+		if err := o.checkFunctionCall(e, true); err != nil {
+			return err
+		}
+		return o.checkFunctionCallsIn(e.Args, false)
+	}
+	return o.checkFunctionCallsIn([]Expression{field}, false)
 }
 
 func (o *Optimizer) checkFunctionCallsIn(exprs []Expression, allowAggr bool) error {
